@@ -1201,6 +1201,16 @@ func (s *sharedEntryAttributes) validateMandatory(ctx context.Context, resultCha
 
 func (s *sharedEntryAttributes) validateMandatoryWithKeys(ctx context.Context, level int, attribute string, resultChan chan<- *types.ValidationResultEntry) {
 	if level == 0 {
+		// a list entry that is going away, its key leafs do not remain, needs no mandatory childs
+		if s.schema == nil {
+			if ancestor, _ := s.GetFirstAncestorWithSchema(); ancestor != nil {
+				for _, k := range ancestor.GetSchemaKeys() {
+					if keyChild, exists := s.childs.GetEntry(k); exists && !keyChild.remainsToExist() {
+						return
+					}
+				}
+			}
+		}
 		// first check if the mandatory value is set via the intent, e.g. part of the tree already
 		v, existsInTree := s.filterActiveChoiceCaseChilds()[attribute]
 
